@@ -336,4 +336,32 @@ def vflCollect (sizes : List Nat) : Nat → Option (List Nat) → List (List Nat
 
 def variableForLoop (sizes : List Nat) (fuel : Nat) : List (List Nat) := vflCollect sizes fuel (vflInit sizes) []
 
+/-! ### recursive SPECIFICATIONS of the enumerators (what the machines above are proved equal to in Props.lean) -/
+
+/-- all `k`-element sub-lists of `xs`, in lexicographic order of positions -/
+def combos : Nat → List Nat → List (List Nat)
+  | 0, _ => [[]]
+  | _ + 1, [] => []
+  | k + 1, x :: r => (combos k r).map (x :: ·) ++ combos (k + 1) r
+
+/-- all tuples `(i₀, i₁, …)` with `i_j < sizes[j]`, in lexicographic order -/
+def product : List Nat → List (List Nat)
+  | [] => [[]]
+  | s :: r => (List.range s).flatMap (fun i => (product r).map (i :: ·))
+
+/-- `maximal_subsets_iterator::can_grow_maximal_set` on a set of `len` events -/
+def canGrowLen (maxSize : Option Nat) (len : Nat) : Bool :=
+  match maxSize with
+  | some m => decide (len < m)
+  | none => true
+
+/-- depth-first (pre-order) enumeration of the non-empty extensions `c ++ s` of `c` by sub-lists `s` of the candidate
+list whose every element `e` passes the test `ok` against the set built so far, limited to `maxSize` elements -/
+def dfsL (ok : EventSet → Nat → Bool) (maxSize : Option Nat) : EventSet → List Nat → List EventSet
+  | _, [] => []
+  | c, e :: r =>
+    if ok c e then
+      (c ++ [e]) :: ((if canGrowLen maxSize (c.length + 1) then dfsL ok maxSize (c ++ [e]) r else []) ++ dfsL ok maxSize c r)
+    else dfsL ok maxSize c r
+
 end SgVerif.C44
